@@ -7,7 +7,8 @@
    of remove_ind / restore_ind (C06_history_invariant) and is re-checked on every real
    tree by the verified checker sl_ok_b (C06_checker_sound). *)
 From Coq Require Import Lia Permutation.
-From Ctg Require Import Base Slice BaseFacts SliceFacts SliceSum.
+From Ctg Require Import Base Net Slice BaseFacts SliceFacts SliceSum SliceGather SliceEndToEnd.
+From Ctg Require Einsum TreeEval.
 
 (* get_slice_strides: strides[i] = product of the sizes after position i *)
 Theorem C06_strides_spec : forall sl i, i < length sl ->
@@ -118,23 +119,56 @@ Theorem C06_project_section : forall s sl e F p, si_proj s = Some p ->
 Proof. exact sum_keys_projected. Qed.
 Print Assumptions C06_project_section.
 
-(* gather_correct, PARTIAL.  Proved: (a) without sliced output indices the result is the sum
-   of all slices; (b) with sliced output indices the entry at a full multi-index idx is read
-   from the partial sum whose key is idx AT THE DECLARED OUTPUT POSITIONS of the sliced output
-   indices (the axis used for the k-th one is position - k, which is what
-   `output_pos[ix] - len(loc)` computes), that partial sum adding exactly the slices whose
-   output key equals it, at the residual multi-index obtained by deleting those axes one by
-   one (snd (unstack ...)).  Missing for the full statement: the closed form of that residual
-   index as "idx without the sliced positions" and the composition with
-   C06_slice_key_output_major / C06_sum_of_slices into "= the unsliced positional result"
-   (which also needs C01's program_correct for each slice).  The executed correspondence
-   compares gather_slices with the real one on integer arrays every run. *)
-Theorem C06_gather_inner_only_partial : forall sl output s slices idx, output_pos output sl = [] ->
+(* gather_correct.  Setting: a state satisfying the invariant, a duplicate-free output, an
+   abstract per-slice evaluator G (extensional in the assignment): slice i, read at a
+   multi-index idx' over the unsliced output indices out', is G at the assignment
+   {out' := idx'} + slice_key i.  Then for every full output multi-index idx (one entry per
+   output index, entries of sliced output positions inside their sliced range -- 0 for a
+   projected one) the gathered tensor's entry is the sum, over the ranges of the INNER sliced
+   indices (a projected one ranging over its single value), of G at the assignment read off
+   idx (full_pairs: output index j := idx[position of j]; a projected output index := its
+   chosen value).  I.e. summing over inner sliced indices and stacking along sliced output
+   indices at their declared positions reproduces the unsliced positional result. *)
+Theorem C06_gather_correct : forall output st,
+  inv output st -> NoDup output ->
+  forall (G : env -> Z), respects G -> forall (e0 : env) slices,
+  length slices = total (ss_sliced st) ->
+  forall idx, length idx = length output ->
+  (forall jp, In jp (output_pos output (ss_sliced st)) ->
+     nth (snd jp) idx 0 < length (sliced_range (si_of (ss_sliced st) (fst jp)))) ->
+  (forall i idx', i < total (ss_sliced st) -> length idx' = length (out' output st) ->
+     tget (nth i slices dummy_t) idx' =
+     G (apply_key (epairs (combine (out' output st) idx') e0) (slice_key (ss_sliced st) i))) ->
+  tget (gather_slices (ss_sliced st) output slices) idx =
+  sum_keys (inns (ss_sliced st)) (epairs (full_pairs output st idx) e0) G.
+Proof. exact gather_correct. Qed.
+Print Assumptions C06_gather_correct.
+
+(* composed with sum_of_slices: when each slice is itself the sum over the unsliced inner
+   indices `rest` of a summand F and the inner sliced indices are sliced (not projected) with
+   SliceInfo.size = size of the index, the gathered entry is the sum over ALL inner indices
+   (sliced ++ rest) of F -- the entry of the unsliced contraction *)
+Theorem C06_gather_is_unsliced_sum : forall size output st F rest e0 slices idx,
+  inv output st -> NoDup output -> respects F ->
+  length slices = total (ss_sliced st) -> length idx = length output ->
+  (forall jp, In jp (output_pos output (ss_sliced st)) ->
+     nth (snd jp) idx 0 < length (sliced_range (si_of (ss_sliced st) (fst jp)))) ->
+  (forall i idx', i < total (ss_sliced st) -> length idx' = length (out' output st) ->
+     tget (nth i slices dummy_t) idx' =
+     sum_over size rest (apply_key (epairs (combine (out' output st) idx') e0) (slice_key (ss_sliced st) i)) F) ->
+  plain size (inns (ss_sliced st)) ->
+  tget (gather_slices (ss_sliced st) output slices) idx =
+  sum_over size (map si_ind (inns (ss_sliced st)) ++ rest) (epairs (full_pairs output st idx) e0) F.
+Proof. exact gather_is_unsliced_sum. Qed.
+Print Assumptions C06_gather_is_unsliced_sum.
+
+(* building blocks, kept: the inner-only case and the stacking-position lemma *)
+Theorem C06_gather_inner_only : forall sl output s slices idx, output_pos output sl = [] ->
   tget (gather_slices sl output (s :: slices)) idx = zsum (map (fun t => tget t idx) (s :: slices)).
 Proof. exact gather_inner_only. Qed.
-Print Assumptions C06_gather_inner_only_partial.
+Print Assumptions C06_gather_inner_only.
 
-Theorem C06_gather_stack_positions_partial : forall sl output slices idx,
+Theorem C06_gather_stack_positions : forall sl output slices idx,
   output_pos output sl <> [] -> unstack_ok sl 0 (output_pos output sl) idx ->
   tget (gather_slices sl output slices) idx =
   tget (match fold_left acc_add
@@ -143,7 +177,7 @@ Theorem C06_gather_stack_positions_partial : forall sl output slices idx,
         with Some c => c | None => dummy_t end)
        (snd (unstack sl 0 (output_pos output sl) idx)).
 Proof. exact gather_stacks_at_declared_positions. Qed.
-Print Assumptions C06_gather_stack_positions_partial.
+Print Assumptions C06_gather_stack_positions.
 
 (* non-vacuity: output (e,a,c) = (4,0,2); history: slice c, slice b, project a:=1, slice d.
    The invariant holds, keys are as in the real run, and gather puts slices where they belong *)
@@ -170,4 +204,86 @@ Proof.
   split; [|split; vm_compute; reflexivity].
   apply C06_slice_key_valid; [|vm_compute; lia].
   apply (C06_checker_sound [4;0;2]). vm_compute. reflexivity.
+Qed.
+
+(* non-vacuity of C06_gather_correct: same history as above (output (e,a,c), sliced c, b, d,
+   projected a:=1), an evaluator G that reads all five indices, slices built from it.  All
+   hypotheses hold and both sides evaluate to the same number at idx = (e,a,c) = (2,0,1):
+   a := 1 (projected), sum over b in 0..2 and d in 0..1 *)
+Example C06_gather_nonvacuous :
+  let inputs := [[0;1;2]; [1;2;3]; [3;0;4]] in
+  let output := [4;0;2] in
+  let szd := [(0,2);(1,3);(2,2);(3,2);(4,3)] in
+  let st := run_ops inputs output szd [OpRemove 2 None; OpRemove 1 None; OpRemove 0 (Some 1); OpRemove 3 None] in
+  let G := fun e : env => (Z.of_nat (e 4%nat) * 10000 + Z.of_nat (e 0%nat) * 1000 + Z.of_nat (e 2%nat) * 100 + Z.of_nat (e 1%nat) * 10 + Z.of_nat (e 3%nat))%Z in
+  let e0 := fun _ : ix => 0 in
+  let slices := map (fun i => mkT [3] (fun idx' => G (apply_key (epairs (combine (out' output st) idx') e0) (slice_key (ss_sliced st) i)))) (seq 0 12) in
+  let idx := [2; 0; 1] in
+  tget (gather_slices (ss_sliced st) output slices) idx = sum_keys (inns (ss_sliced st)) (epairs (full_pairs output st idx) e0) G
+  /\ tget (gather_slices (ss_sliced st) output slices) idx = 126663%Z.
+Proof.
+  cbn zeta. split; [|vm_compute; reflexivity].
+  apply C06_gather_correct.
+  - apply C06_checker_sound. vm_compute. reflexivity.
+  - repeat constructor; cbn; intuition lia.
+  - intros e1 e2 He. rewrite !He. reflexivity.
+  - vm_compute. reflexivity.
+  - reflexivity.
+  - intros jp Hjp. vm_compute in Hjp. destruct Hjp as [<-|[<-|[]]]; vm_compute; lia.
+  - intros i idx' Hi _. vm_compute in Hi.
+    do 12 (destruct i as [|i]; [reflexivity|]). lia.
+Qed.
+
+(* END TO END (C06 composed with C01's run_root_correct).  Every slice is produced by C01's
+   contraction program Program.run_root on the arrays sliced at slice_key i (all_slices); the
+   network is well formed (output duplicate-free and carried by some input), the tree uses every
+   input exactly once, the slicing state satisfies the invariant.  Then gather_slices of the
+   slices is, entry by entry, the sum over the inner sliced ranges of the einsum of the SLICED
+   network ... *)
+Theorem C06_contract_sliced : forall n st arr ebase l r,
+  TreeEval.wf_net n -> TreeEval.full_tree n (Node l r) -> inv (output n) st ->
+  forall idx, length idx = length (output n) ->
+  (forall jp, In jp (output_pos (output n) (ss_sliced st)) ->
+     nth (snd jp) idx 0 < length (sliced_range (si_of (ss_sliced st) (fst jp)))) ->
+  tget (gather_slices (ss_sliced st) (output n) (all_slices n st arr ebase l r)) idx =
+  sum_keys (inns (ss_sliced st)) (epairs (full_pairs (output n) st idx) ebase)
+           (Einsum.einsum_spec n (slr_of (ss_sliced st)) arr).
+Proof. exact contract_sliced. Qed.
+Print Assumptions C06_contract_sliced.
+
+(* ... and when no INNER index is projected (inner sliced indices are sliced, occur in the
+   network, SliceInfo.size = their dimension) it is the mathematical einsum of the UNSLICED
+   network, at the assignment read off idx (a projected OUTPUT index taking its chosen value):
+   contract of a sliced tree = einsum_spec of the unsliced network *)
+Theorem C06_contract_sliced_is_einsum : forall n st arr ebase l r,
+  TreeEval.wf_net n -> TreeEval.full_tree n (Node l r) -> inv (output n) st ->
+  plain (Einsum.dim n) (inns (ss_sliced st)) ->
+  (forall s, In s (inns (ss_sliced st)) -> In (si_ind s) (Einsum.all_ix n)) ->
+  forall idx, length idx = length (output n) ->
+  (forall jp, In jp (output_pos (output n) (ss_sliced st)) ->
+     nth (snd jp) idx 0 < length (sliced_range (si_of (ss_sliced st) (fst jp)))) ->
+  tget (gather_slices (ss_sliced st) (output n) (all_slices n st arr ebase l r)) idx =
+  Einsum.einsum_spec n [] arr (epairs (full_pairs (output n) st idx) ebase).
+Proof. exact contract_sliced_is_einsum. Qed.
+Print Assumptions C06_contract_sliced_is_einsum.
+
+(* non-vacuity: the 3-tensor network above, tree ((0,1),2), sliced c (output), b, d (inner)
+   and projected a:=1 (output): every hypothesis of the end-to-end theorem holds *)
+Example C06_end_to_end_nonvacuous :
+  let n := mkNet [[0;1;2]; [1;2;3]; [3;0;4]] [4;0;2] [(0,2%Z);(1,3%Z);(2,2%Z);(3,2%Z);(4,3%Z)] in
+  let st := run_ops (inputs n) (output n) [(0,2);(1,3);(2,2);(3,2);(4,3)]
+                    [OpRemove 2 None; OpRemove 1 None; OpRemove 0 (Some 1); OpRemove 3 None] in
+  TreeEval.wf_net n /\ TreeEval.full_tree n (Node (Node (Leaf 0) (Leaf 1)) (Leaf 2)) /\ inv (output n) st /\
+  plain (Einsum.dim n) (inns (ss_sliced st)) /\
+  (forall s, In s (inns (ss_sliced st)) -> In (si_ind s) (Einsum.all_ix n)) /\
+  (forall jp, In jp (output_pos (output n) (ss_sliced st)) ->
+     nth (snd jp) [2; 0; 1] 0 < length (sliced_range (si_of (ss_sliced st) (fst jp)))).
+Proof.
+  cbn zeta. split; [|split; [|split; [|split; [|split]]]].
+  - split; [repeat constructor; cbn; intuition lia|]. intros j Hj. cbn in *. intuition (subst; auto 10).
+  - unfold TreeEval.full_tree. cbn. apply Permutation_refl.
+  - apply C06_checker_sound. vm_compute. reflexivity.
+  - vm_compute. repeat constructor.
+  - intros s Hs. vm_compute in Hs. destruct Hs as [<-|[<-|[]]]; vm_compute; auto 10.
+  - intros jp Hjp. vm_compute in Hjp. destruct Hjp as [<-|[<-|[]]]; vm_compute; lia.
 Qed.
